@@ -295,14 +295,17 @@ Proof.
     try exact Ho; apply att_valid_iff; auto; intros p [].
 Qed.
 
-Lemma similar_value_valid_local : forall apol k T key s lo ro src v, k <= 5 ->
+(* the id policies that write one of the two cells' own ids *)
+Definition id_pol_own (pol : similar_id_policy) : Prop := match pol with SimIdDict => False | _ => True end.
+
+Lemma similar_value_valid_own : forall pol apol k T key s lo ro src v, id_pol_own pol -> k <= 5 ->
   In T cell_type_defs ->
   prop_schema (nb_defs k) T key = Some s ->
   ovalid k s lo -> ovalid k s ro ->
-  similar_value SimIdLocal apol key lo ro src = Some v ->
+  similar_value pol apol key lo ro src = Some v ->
   validate (nb_defs k) F s v = Some true.
 Proof.
-  intros apol k T key s lo ro src v Hk HT Hs Hlo Hro Hv.
+  intros pol apol k T key s lo ro src v Hpol Hk HT Hs Hlo Hro Hv.
   unfold similar_value in Hv.
   destruct (str_eqb key k_source) eqn:E1; [ apply str_eqb_eq in E1; subst key | ].
   { destruct lo, ro; try discriminate. injection Hv as <-.
@@ -310,7 +313,9 @@ Proof.
   destruct (str_eqb key k_metadata) eqn:E2; [ apply str_eqb_eq in E2; subst key | ].
   { destruct lo, ro; try discriminate. injection Hv as <-.
     do 6 (destruct k as [|k]; [ destruct HT as [<-|[<-|[<-|[]]]]; vm_compute in Hs; injection Hs as <-; lazy; reflexivity | ]). exfalso; lia. }
-  destruct (str_eqb key k_id) eqn:E3; [ subst lo; exact Hlo | ].
+  destruct (str_eqb key k_id) eqn:E3.
+  { destruct pol; [ contradiction | subst lo; exact Hlo | ].
+    destruct lo as [lv|]; [ injection Hv as <-; exact Hlo | subst ro; exact Hro ]. }
   destruct (str_eqb key k_execution_count) eqn:E4; [ apply str_eqb_eq in E4; subst key | ].
   { injection Hv as <-. do 6 (destruct k as [|k]; [ destruct HT as [<-|[<-|[<-|[]]]]; vm_compute in Hs; try discriminate Hs; injection Hs as <-; lazy; reflexivity | ]). exfalso; lia. }
   destruct (str_eqb key k_outputs) eqn:E5; [ apply str_eqb_eq in E5; subst key | ].
@@ -328,6 +333,23 @@ Proof.
   - exact (att_or_empty_vals k 37 lo latt Hk Hlo El).
   - exact (att_or_empty_vals k 37 ro ratt Hk Hro Er).
 Qed.
+
+Lemma similar_value_valid_local : forall apol k T key s lo ro src v, k <= 5 ->
+  In T cell_type_defs ->
+  prop_schema (nb_defs k) T key = Some s ->
+  ovalid k s lo -> ovalid k s ro ->
+  similar_value SimIdLocal apol key lo ro src = Some v ->
+  validate (nb_defs k) F s v = Some true.
+Proof. intros apol k T key s lo ro src v. exact (similar_value_valid_own SimIdLocal apol k T key s lo ro src v I). Qed.
+
+(* f2e9526: the id is local's if local has one, else remote's -- so a pair of similar inserts of which only one carries
+   an id (sides saved with different minors) no longer raises KeyError; with SimIdLocal this value is None *)
+Lemma similar_id_one_sided : forall apol lv rv src,
+  similar_value SimIdLocalElseRemote apol k_id None (Some rv) src = Some rv /\
+  similar_value SimIdLocalElseRemote apol k_id (Some lv) None src = Some lv /\
+  similar_value SimIdLocalElseRemote apol k_id (Some lv) (Some rv) src = Some lv /\
+  similar_value SimIdLocalElseRemote apol k_id None None src = None.
+Proof. intros. repeat split; reflexivity. Qed.
 
 Lemma similar_value_id_dict_invalid : forall apol T s lv rv src v,
   In T cell_type_defs ->
@@ -368,7 +390,7 @@ Definition similar_statement (pol : similar_id_policy) (apol : similar_att_polic
                  validate (nb_defs 5) F cell_schema c = Some false) /\
       (forall T s lv rv src v, In T cell_type_defs -> prop_schema (nb_defs 5) T k_id = Some s ->
          similar_value pol apol k_id (Some lv) (Some rv) src = Some v -> validate (nb_defs 5) F s v = Some false)
-  | SimIdLocal =>
+  | SimIdLocal | SimIdLocalElseRemote =>
       forall k T key s lo ro src v, k <= 5 -> In T cell_type_defs -> prop_schema (nb_defs k) T key = Some s ->
         ovalid k s lo -> ovalid k s ro -> similar_value pol apol key lo ro src = Some v ->
         validate (nb_defs k) F s v = Some true
@@ -376,8 +398,30 @@ Definition similar_statement (pol : similar_id_policy) (apol : similar_att_polic
 Lemma similar_statement_holds : forall pol apol, similar_statement pol apol.
 Proof.
   destruct pol; intros apol;
-    [ exact (conj (similar_insert_refuted_dict apol) (similar_value_id_dict_invalid apol)) | exact (similar_value_valid_local apol) ].
+    [ exact (conj (similar_insert_refuted_dict apol) (similar_value_id_dict_invalid apol))
+    | exact (fun k T key s lo ro src v => similar_value_valid_own SimIdLocal apol k T key s lo ro src v I)
+    | exact (fun k T key s lo ro src v => similar_value_valid_own SimIdLocalElseRemote apol k T key s lo ro src v I) ].
 Qed.
+
+(* non-vacuity of the one-sided id case: a pre-4.5 cell (no id) and a 4.5 cell (id) inserted concurrently, either order;
+   the assembled cell takes the one existing id and is a valid 4.5 cell *)
+Definition wit_md_id (with_id : bool) (cid src : string) : list (pystr * json) :=
+  ((k_cell_type, JStr s_markdown) :: (if with_id then [(k_id, JStr (of_ascii cid))] else []) ++
+   [(k_metadata, JObj []); (k_source, JStr (of_ascii src))])%list.
+Definition wit_one_sided (local_has_id : bool) : option json :=
+  similar_insert_cell_with SimIdLocalElseRemote SimAttKeepBoth
+    (wit_md_id local_has_id "lid" "x") (wit_md_id (negb local_has_id) "rid" "y") [k_source; k_id] (of_ascii "x|y").
+Example similar_insert_one_sided_id_example : forall b,
+  match wit_one_sided b with
+  | Some (JObj kv) => validate (nb_defs 5) F cell_schema (JObj kv) = Some true /\
+                      obj_get k_id kv = Some (JStr (of_ascii (if b then "lid" else "rid")))
+  | _ => False
+  end.
+Proof. destruct b; vm_compute; split; reflexivity. Qed.
+(* ... while the previous policy fails on it (KeyError) when local is the side without an id *)
+Example similar_insert_one_sided_id_old_policy :
+  similar_insert_cell_with SimIdLocal SimAttKeepBoth (wit_md_id false "lid" "x") (wit_md_id true "rid" "y") [k_source; k_id] (of_ascii "x|y") = None.
+Proof. vm_compute. reflexivity. Qed.
 
 (* ---------- existential forms (witnesses replayed on the implementation by the check) ---------- *)
 Lemma marker_cell_refuted_always :
